@@ -24,6 +24,8 @@ FIXED = {
     "if-else": "x := 1\nif x > 0\n    x = 2\nelse\n    x = 3\nend\n",
     "if-elseif": "x := 1\nif x > 2\n    x = 2\nelse if x > 1\n    x = 3\nelse if x > 0\n    x = 4\nend\n",
     "if-elseif-else": "x := 1\nif x > 2\n    x = 2\nelse if x > 1\n    x = 3\nelse\n    x = 5\nend\nx = x + 1\n",
+    "if-elseif-4-else": ("x := 3\nif x == 0\n    x = 10\nelse if x == 1\n    x = 11\nelse if x == 2\n    x = 12\nelse if x == 3\n    x = 13\n"
+                         "else if x == 4\n    x = 14\nelse\n    x = 15\nend\nx = x\n"),
     "if-last": "x := 1\nif x == 1\n    x = 2\nend\n",
     "while": "i := 0\nwhile i < 3\n    i = i + 1\nend\n",
     "while-true-break": "i := 0\nwhile true\n    i = i + 1\n    if i > 2\n        break\n    end\nend\n",
@@ -329,7 +331,7 @@ class Gen:
         elif k == "if":
             lines.append(ind + "if " + self.expr(BOOL))
             self.block(depth + 1, lines, ind + "    ", loopbreak=self.inloop > 0)
-            for _ in range(r.choice([0, 0, 1, 2])):
+            for _ in range(r.choice([0, 0, 0, 1, 1, 2, 3, 4])):
                 lines.append(ind + "else if " + self.expr(BOOL))
                 self.block(depth + 1, lines, ind + "    ", loopbreak=self.inloop > 0)
             if r.random() < 0.5:
